@@ -25,8 +25,12 @@ CLAIMS = {
             "everything on the edited path is marked; a child is skipped only by the look-ahead-aware tests; stored ranges and stand-alone point/node edits use the same entry points"),
     "C11": ("pairing rule (flag set before every exhaustion-caused discard), field coverage of cursor re-initialisation, gate on match removal", "§4 C11",
             "a match limit that drops matches is always reported; re-executing a cursor starts from clean per-execution state"),
+    "C12": ("feasibility of the reuse accept exits under constant/flag propagation; ordering (reuse → token cache → lexer); loop-progress monitor on the old-tree walk; gates on what the edit marks", "§4 C12",
+            "necessary conditions for reuse only — the quantitative fractions are runtime quantities and are not decided"),
     "C13": ("must-pass-through gates on the range setter's validation loop and on the lexer's range-boundary handling; wiring checks of what the tree records", "§4 C13",
             "a range list is installed only after each element passed both ordering tests; trees record/report exactly the lexer's ranges; tokens never end inside a gap"),
+    "C14": ("must-pass-through gates on the runtime keyword re-lex and word-token fall-back (Clang CFG) and on the generator's keyword identification (rustc MIR)", "§4 C14",
+            "ONLY the keyword clause: a keyword replaces the word token only when it covers the whole word; the precedence/longest-match/ordering clauses are not decided"),
     "C08": ("who-may-write tables + licence-class gates over the Clang-resolved program; call-graph closure of the read-only API; compile-fail witnesses", "§4 C08",
             "no non-atomic write to shared nodes, every in-place mutation licensed by fresh/ref_count==1/dec-to-zero"),
 }
